@@ -12,7 +12,8 @@ ORBIT_KEYS = ['eccentricity', 'orbital_period', 'semi_major_axis', 'orbital_freq
 BATCHED = [('eccentricity', 'orbital_period'), ('eccentricity', 'spin_period'), ('orbital_frequency', 'spin_frequency')]
 
 
-def alphabet(kind='cpl'):
+def alphabet(kind='cpl', core=False):
+    """core=True: the set_state / time / fixed-q operations only (used for the longest histories); otherwise also every individual setter route"""
     sync = kind.endswith('_sync')
     wk = [k for k in WORLD_KEYS if not (sync and k.startswith('spin'))]
     ops = [{'via': 'world', 'kw': {k: 0}} for k in wk] + [{'via': 'orbit', 'kw': {k: 0}} for k in ORBIT_KEYS]
@@ -21,6 +22,12 @@ def alphabet(kind='cpl'):
     ops += [{'via': 'setter', 'kw': {'eccentricity': 0}}, {'via': 'setter', 'kw': {'orbital_period': 0}}, {'via': 'orbit_time', 'kw': {'time': 0}}]
     if not sync:
         ops += [{'via': 'setter', 'kw': {'spin_period': 0}}]
+    if not core:
+        ops += [{'via': 'setter', 'kw': {k: 0}} for k in ('semi_major_axis', 'orbital_frequency')] + [{'via': 'orbit_setter', 'kw': {k: 0}} for k in ORBIT_KEYS]
+        if not sync:
+            ops += [{'via': 'setter', 'kw': {'spin_frequency': 0}}, {'via': 'world_method', 'kw': {'spin_frequency': 0}}, {'via': 'world_method', 'kw': {'spin_period': 0}}]
+        if kind in ('cpl_obl', 'ctl_obl', 'layered', 'dual_layered'):
+            ops += [{'via': 'world_method', 'kw': {'obliquity': 0}}]
     if kind.startswith('dual'):
         ops += [{'via': 'host', 'kw': {'host_spin_period': 0}}]
         if kind == 'dual_cpl':
@@ -39,7 +46,7 @@ def alphabet(kind='cpl'):
 
 
 def op_name(op):
-    via = {'world': 'world.set_state', 'orbit': 'orbit.set_state', 'setter': 'world.<attr> =', 'layer': 'mantle.set_state', 'layer_setter': 'mantle.temperature =', 'tides': 'world.set_fixed', 'orbit_time': 'orbit.time =', 'host': 'host.set_state / host setters'}[op['via']]
+    via = {'world': 'world.set_state', 'orbit': 'orbit.set_state', 'setter': 'world.<attr> =', 'layer': 'mantle.set_state', 'layer_setter': 'mantle.temperature =', 'tides': 'world.set_fixed', 'orbit_time': 'orbit.time =', 'host': 'host.set_state / host setters', 'orbit_setter': 'orbit.set_<x>(world, ..) for', 'world_method': 'world.set_<x>(..) for'}[op['via']]
     return '%s(%s)' % (via, ', '.join(sorted(op['kw'])))
 
 
@@ -145,8 +152,8 @@ def _strip(names):
     return sorted({n.split('#')[0] for n in names})
 
 
-def job_histories(world, k, chunk, nchunks, arrays=False):
-    ops = alphabet(world)
+def job_histories(world, k, chunk, nchunks, arrays=False, core=False):
+    ops = alphabet(world, core)
     hs = []
     for n in range(0, k + 1):
         for combo in itertools.product(ops, repeat=n):
@@ -229,21 +236,22 @@ def _sha_of_sources():
 def main():
     jobs = []
     if TIER == 'thorough':
-        plan = [('cpl', 3, 16, False), ('ctl', 2, 4, False), ('cpl_obl', 2, 4, False), ('ctl_obl', 1, 1, False), ('cpl_sync', 2, 4, False), ('layered', 2, 8, False), ('dual_cpl', 2, 6, False), ('dual_layered', 2, 10, False),
+        plan = [('cpl', 3, 16, False, True), ('cpl', 2, 8, False), ('ctl', 2, 4, False), ('cpl_obl', 2, 4, False), ('ctl_obl', 1, 1, False), ('cpl_sync', 2, 4, False), ('layered', 2, 8, False), ('dual_cpl', 2, 6, False), ('dual_layered', 2, 10, False),
                 ('cpl', 2, 4, True), ('layered', 1, 1, True), ('dual_cpl', 1, 1, True)]
     else:
         plan = [('cpl', 2, 6, False), ('ctl', 1, 1, False), ('cpl_obl', 1, 1, False), ('cpl_sync', 1, 1, False), ('layered', 1, 2, False), ('dual_cpl', 1, 1, False), ('dual_layered', 1, 2, False), ('cpl', 1, 1, True)]
-    for world, k, n, arrays in plan:
+    plan = [tuple(p) + (False,) * (5 - len(p)) for p in plan]
+    for world, k, n, arrays, core in plan:
         for c in range(n):
-            jobs.append((job_histories, {'world': world, 'k': k, 'chunk': c, 'nchunks': n, 'arrays': arrays}))
-    bounds_txt = '; '.join('%s%s: histories of length <= %d over %d operations' % (w, ' (array-valued inputs)' if ar else '', k, len(alphabet(w))) for w, k, n, ar in plan)
+            jobs.append((job_histories, {'world': world, 'k': k, 'chunk': c, 'nchunks': n, 'arrays': arrays, 'core': core}))
+    bounds_txt = '; '.join('%s%s: histories of length <= %d over %d operations%s' % (w, ' (array-valued inputs)' if ar else '', k, len(alphabet(w, core)), ' (set_state-level operations only)' if core else '') for w, k, n, ar, core in plan)
     meta = {
         'explanation': 'The real BaseWorld/TidalWorld/OrbitBase/PhysicsOrbit/TidesBase/GlobalApproxTides classes are driven in /venv/bin/python under a provenance tracer: leaf numeric functions '
                        '(eccentricity/inclination functions, calculate_terms, collapse_modes, susceptibility, CPL/CTL helpers, conversions, derivative functions) are wrapped at their import sites and return '
                        'values that carry the uninterpreted term f(args); setter inputs are tagged symbols; a float subclass carries terms through inline arithmetic. Operation sequences (symbolic choice of the '
                        'operation at each step = enumeration of the bounded history space) are executed; for every exposed quantity z3 decides the validity of T_history = T_fresh over uninterpreted functions '
                        '+ real arithmetic, i.e. for ALL input values and all interpretations of the leaves. A sat answer is confirmed by the concrete values of the same real run before it is reported.',
-        'bounds': bounds_txt + '. Operations: single and batched set_state through the world and through the orbit, attribute setters, time, obliquity, layer temperature, fixed-Q / fixed-dt. '
+        'bounds': bounds_txt + '. Operations: single and batched set_state through the world and through the orbit, every attribute setter and set_<x> method of world and orbit, time, obliquity, layer temperature, fixed-Q / fixed-dt. '
                   'Worlds: global-approximation CPL / CTL (with and without obliquity tides, forced spin-synchronous), a two-layer Io with layered tides, and dual-body systems (tidally active host and body, CPL and layered).',
         'outside': 'longer histories; other world configurations, eccentricity truncations and tidal orders (the update cascade does not branch on them); branches of the cascade that depend on input VALUES are followed for the one '
                    'concrete value per symbol used by the tracer; quantities whose provenance is lost are listed in the notes as NOT COVERED, not as passed.',
